@@ -18,3 +18,9 @@ pub fn any_endpoint_pair() -> (IpAddr, IpAddr) {
         (IpAddr::V6(any_v6()), IpAddr::V6(any_v6()))
     }
 }
+
+/// E6: replacement for `alloc::fmt::format` in harnesses whose assertions do not read formatted
+/// strings (error messages are built with `format!` on symbolic values otherwise).
+pub fn stub_format(_args: core::fmt::Arguments<'_>) -> String {
+    String::with_capacity(1)
+}
